@@ -472,8 +472,168 @@ def nt_uw(c, o):
   return F(c["step"]) > 0 and o.get("err") is None and o.get("outs") != c["xs"] and len(c["xs"]) >= 3
 
 
+# ------------------------------------------------------------------ multi-use histories
+# one tool object applied to 2-3 inputs; ops = ["new", i] (apply the object to input i) / ["pull", i] (next() on
+# stream i); every stream is pulled exactly len(input i) times, then once more (must be StopIteration)
+def merges(counts):
+  """all interleavings of k sequences with the given lengths (as lists of stream indices)"""
+  if not any(counts):
+    yield []
+    return
+  for i, n in enumerate(counts):
+    if n:
+      rest = list(counts); rest[i] -= 1
+      for m in merges(rest):
+        yield [i] + m
+
+
+def with_news(order, k, eager):
+  ops, seen = ([["new", i] for i in range(k)] if eager else []), set(range(k)) if eager else set()
+  for i in order:
+    if i not in seen:
+      ops.append(["new", i]); seen.add(i)
+    ops.append(["pull", i])
+  for i in range(k):
+    if i not in seen:
+      ops.append(["new", i])
+  return ops
+
+
+def rand_order(rng, counts):
+  order = [i for i, n in enumerate(counts) for _ in range(n)]
+  rng.shuffle(order)
+  return order
+
+
+MU_TOOLS = ([{"t": "mav", "s": s, "size": size} for s in MAVS for size in (1, 2, 3, 4)] +
+            [{"t": "amdf", "lag": lag, "size": 2} for lag in (1, 2, float(1.5).hex())] +
+            [{"t": "env", "s": s, "cutoff": float(0.3).hex()} for s in ENVS] +
+            [{"t": "clip", "low": [-1, 1], "high": [1, 2]}, {"t": "clip", "low": None, "high": [0, 1]},
+             {"t": "zc", "h": [1, 2], "fs": [0, 1]}, {"t": "zc", "h": [0, 1], "fs": [-1, 1]},
+             {"t": "uw", "md": [1, 1], "step": [2, 1]}, {"t": "uw", "md": [1, 2], "step": [1, 1]}] +
+            [{"t": "acc", "s": s} for s in ACCS])
+
+
+def gen_multi(tier, rng):
+  a, b = [[3, 1], [-1, 1], [4, 1]], [[10, 1], [-5, 2]]
+  # exhaustive interleavings of two short inputs, both creation disciplines, every maverage strategy
+  for s in MAVS:
+    for size in (1, 2, 3):
+      for order in merges([len(a), len(b)]):
+        for eager in (True, False):
+          yield {"tool": {"t": "mav", "s": s, "size": size}, "ins": [[[0, 1], a], [[2, 1], b]],
+                 "ops": with_news(order, 2, eager), "tags": ["multi", "mav", s, "exh"]}
+  for tool in MU_TOOLS:
+    for rep in range(3 if tier == "quick" else 30):
+      k = 2 if rep % 3 else 3
+      short = tool["t"] == "env"
+      ins = [[rng.choice([[0, 1], [0, 1], [2, 1], [-1, 3]]) if tool["t"] in ("mav", "amdf") else [0, 1],
+              rand_xs(rng, rng.randrange(2, 5 if short else 8))] for _ in range(k)]
+      order = rand_order(rng, [len(x[1]) for x in ins]) if rep else [j % k for j in range(k * 8)]
+      if not rep:   # lockstep (zip) on equal lengths
+        n = min(len(x[1]) for x in ins)
+        ins = [[z, xs[:n]] for z, xs in ins]
+        order = [i for _ in range(n) for i in range(k)]
+      yield {"tool": tool, "ins": ins, "ops": with_news(order, k, rng.random() < 0.5),
+             "tags": ["multi", tool["t"], "k=%d" % k, "lockstep" if not rep else "random"]}
+
+
+def _mu_build(tool):
+  import audiolazy
+  t = tool["t"]
+  if t == "mav":
+    f = audiolazy.maverage[tool["s"]](tool["size"])
+    return lambda xs, zero: f(xs, zero=zero)
+  if t == "amdf":
+    lag = float.fromhex(tool["lag"]) if isinstance(tool["lag"], str) else tool["lag"]
+    f = audiolazy.amdf(lag, tool["size"])
+    return lambda xs, zero: f(xs, zero=zero)
+  if t == "env":
+    f, cutoff = audiolazy.envelope[tool["s"]], float.fromhex(tool["cutoff"])
+    return lambda xs, zero: f(xs, cutoff=cutoff)
+  if t == "clip":
+    lo = None if tool["low"] is None else ExactQ(F(tool["low"]))
+    hi = None if tool["high"] is None else ExactQ(F(tool["high"]))
+    return lambda xs, zero: audiolazy.clip(xs, low=lo, high=hi)
+  if t == "zc":
+    return lambda xs, zero: audiolazy.zcross(xs, hysteresis=ExactQ(F(tool["h"])), first_sign=ExactQ(F(tool["fs"])))
+  if t == "uw":
+    return lambda xs, zero: audiolazy.unwrap(xs, max_delta=ExactQ(F(tool["md"])), step=ExactQ(F(tool["step"])))
+  f = audiolazy.accumulate[tool["s"]]
+  return lambda xs, zero: f(xs)
+
+
+def run_multi(c):
+  k = len(c["ins"])
+  outs, err, its = [[] for _ in range(k)], [None] * k, {}
+  extra = {}
+  try:
+    call = _mu_build(c["tool"])
+    if c["tool"]["t"] == "env":
+      import audiolazy
+      extra["coef"] = _lowpass_coeffs(audiolazy.lowpass(float.fromhex(c["tool"]["cutoff"])))
+  except Exception as e:
+    return {"streams": [{"raise": "Build" + type(e).__name__}] * k}
+  def pull(i):
+    v = next(its[i])
+    outs[i].append(fr(to_frac(v.arg if isinstance(v, SymSqrt) else v)))
+  for op, i in c["ops"]:
+    if err[i]:
+      continue
+    try:
+      if op == "new":
+        its[i] = iter(call(Qs(c["ins"][i][1]), ExactQ(F(c["ins"][i][0]))))
+      else:
+        pull(i)
+    except StopIteration:
+      err[i] = "StopIteration"
+    except Exception as e:
+      err[i] = type(e).__name__
+  for i in range(k):
+    if not err[i]:
+      try:
+        pull(i)
+        err[i] = "ExtraOutput"
+      except StopIteration:
+        pass
+      except Exception as e:
+        err[i] = type(e).__name__
+  extra["streams"] = [{"raise": err[i]} if err[i] else {"ok": outs[i]} for i in range(k)]
+  return extra
+
+
+def lit_multi(c, o):
+  tool, t = c["tool"], c["tool"]["t"]
+  if t == "mav":
+    tl = "(TMav %s %s %s)" % (MAV_COQ[tool["s"]], q(cinv(tool["size"])), L.nat(tool["size"]))
+  elif t == "amdf":
+    lag = float.fromhex(tool["lag"]) if isinstance(tool["lag"], str) else tool["lag"]
+    tl = "(TAmdf %s %s %s)" % (q(cinv(tool["size"])), L.nat(tool["size"]), q(fr(Fraction(lag))))
+  elif t == "env":
+    g, a1 = o.get("coef", ([0, 1], [0, 1]))
+    tl = "(TEnv %s %s %s)" % (ENV_COQ[tool["s"]], q(g), q(a1))
+  elif t == "clip":
+    tl = "(TClip %s %s)" % (L.option(tool["low"], q), L.option(tool["high"], q))
+  elif t == "zc":
+    tl = "(TZc %s %s)" % (q(tool["h"]), q(tool["fs"]))
+  elif t == "uw":
+    tl = "(TUw %s %s)" % (q(tool["md"]), q(tool["step"]))
+  else:
+    tl = "(TAcc %s)" % ACC_COQ[tool["s"]]
+  streams = o.get("streams") or [{"raise": o.get("raise", "Unknown")}] * len(c["ins"])
+  return "(MU %s %s %s)" % (tl, L.lst(["(%s, %s)" % (q(z), qlist(xs)) for z, xs in c["ins"]]),
+                            L.lst([res_lit(s, qlist) for s in streams]))
+
+
+def nt_multi(c, o):
+  pulls = [i for op, i in c["ops"] if op == "pull"]
+  switches = sum(1 for x, y in zip(pulls, pulls[1:]) if x != y)
+  return switches >= 3 and all(len(xs) >= 2 for _, xs in c["ins"])
+
+
 IMPORTS = "From AL Require Import C20.Model C20.Spec C20.Check."
 FAMILIES = {
+  "multi": Family("multi", IMPORTS, "mucase", "corr_multi", "holds_multi", gen_multi, run_multi, lit_multi, nt_multi),
   "lin": Family("lin", IMPORTS, "lincase", "corr_lin", "holds_lin", gen_lin, run_lin, lit_lin, nt_lin),
   "mav": Family("mav", IMPORTS, "mvcase", "corr_mav", "holds_mav", gen_mav, run_mav, lit_mav, nt_mav),
   "acc": Family("acc", IMPORTS, "accase", "corr_acc", "holds_acc", gen_acc, run_acc, lit_acc),
